@@ -359,6 +359,16 @@ def run(F, run, tier):
         c03.check_adams(F, run, name)
     for name in M.BDF_IMPLS:
         c03.check_bdf(F, run, name)
+    # "completes without reporting an error … including solutions at rest and solutions relaxing to a steady state": the one place a solver error can arise
+    # (R5.1) is the BDF inner solve, and at rest its residual at the predicted state is exactly zero — the first step of the solve is zero.  The Broyden
+    # rule shared with C03/C08 (rules/broyden.py) includes the obligation that a zero step cannot reach the Sherman–Morrison division (0/0 → NaN inverse →
+    # MaximumIterationsExceeded).
+    from rules import broyden
+    try:
+        broyden.check(F, run, M.method_of(F, "ivp::bdf::BDFSolver<", None, "secant"), "R3.8", "BDFSolver::secant", 2,
+                      names=("jac_inv", "shift", "derivative", "guess"))
+    except Missing as e:
+        run.broken("R3.8", "BDFSolver::secant", "anchor", "src/ivp/bdf.rs", str(e))
     run.assumptions += ["the evaluation-count bound is numerical and is not decided", "numeric guards are nondeterministic in the typestate exploration"]
     expl = ("Decides the termination skeleton: which errors a stepper may construct and under which guard, that every Redo path makes typestate "
             "progress or updates dt and passes the minimum-step test (RK structurally, Adams/BDF over all transitions of the explored protocol), "
